@@ -102,6 +102,8 @@ BY_NAME = {d.name: d for d in DOPS}
 
 def wrappers_for(cfg, prop, tier):
     out = []
+    if prop == 'C14' and 'AVEL_X86' not in cfg.macros:
+        out.append(dict(DIV64_WRAPPER))     # portable Knuth-D branch only (the x86 branch is one divq instruction)
     for d in DOPS:
         if d.tier == 'thorough' and tier != 'thorough':
             continue
@@ -442,7 +444,122 @@ def solve_task(task):
     return res
 
 
+# ------------------------------------------------------------------------------------------------ 128/64 division helper of the 64-bit constructors
+DIV64_WRAPPER = {'name': 'w_div64uhi__spec', 'op': 'div64uhi', 'type': 'vec1x64u', 'scalar': True, 'K': None, 'denom': True,
+                 'line': 'VW std::uint64_t w_div64uhi__spec(std::uint64_t x, std::uint64_t y) { return avel::div_64uhi_by_64u(x, y); }',
+                 'params': ['std::uint64_t', 'std::uint64_t'], 'rtype': 'std::uint64_t'}
+
+
+def solve_div64(task):
+    """avel::div_64uhi_by_64u(x, y) (the magic-number source of Denominator<int64_t>) against floor(x * 2^64 / y) for all x < y.
+    BUG HUNTING ONLY: measured (z3, cvc5, cvc5 int-blast, 300 s each, even with the divisor's high half fixed) no back end proves the
+    Knuth-D trial-quotient corrections, so on a correct tree this obligation stays *undecided* and is reported as such; a wrong
+    correction is found as a model within the budget (seeded change C14-m1: 47-80 s) and replayed against unsigned __int128."""
+    import os, json, hashlib, subprocess
+    from . import build
+    t0 = time.time()
+    meta = task['meta']
+    res = {'name': meta['name'], 'op': meta['op'], 'type': meta['type'], 'cfg': task['cfg'], 'status': 'ok', 'time': 0.0,
+           'obligations': 0, 'discharged': 0, 'trivial': 0, 'by_symmetry': 0, 'nontrivial': 0, 'undecided': [], 'known_hits': [],
+           'violations': [], 'unconfirmed': [], 'paths': 0, 'steps': 0, 'intrinsics': [], 'callees': []}
+    try:
+        ops.CTX.consts = sysconsts.load()
+        mod = runner.get_mod(task['ll'])
+        fn = mod.fns[meta['name']]
+        cfg = configs.BY_NAME[task['cfg']]
+        rm, _ = harness.make_rm(None)
+        ops.CTX.rm = rm
+        asm = []
+        ex = symex.Executor(mod, intrin.Intrinsics(), assumptions=asm)
+        st, mx_asm = harness.init_state(ex, rm)
+        asm += mx_asm
+        x, y = z3.BitVec('s0', 64), z3.BitVec('s1', 64)
+        asm.append(z3.ULT(x, y))             # documented domain: the quotient fits in 64 bits
+        finals = ex.run(meta['name'], [harness.pack_lanes([x], 64, fn.args[0][1]), harness.pack_lanes([y], 64, fn.args[1][1])], st)
+        res['paths'] = len(finals)
+        res['steps'] = ex.total_steps
+        res['callees'] = sorted(ex.called)
+        W = 130
+        N = z3.Concat(z3.BitVecVal(0, W - 128), x, z3.BitVecVal(0, 64))
+        Y = z3.ZeroExt(W - 64, y)
+        bad = []
+        ubs = []
+        for f in finals:
+            pc = sym.bz(b_and(*f.pc))
+            for cat, b_, info, pcsnap in f.obls:
+                ubs.append((cat, info, sym.bz(b_and(b_and(*pcsnap), b_))))
+            if f.ret is None:
+                continue
+            got, _pp = harness.unpack_lanes(f.ret, fn.ret, 64, 1)
+            q = sym.bv(got[0], 64)
+            Q = z3.ZeroExt(W - 64, q)
+            bad.append(z3.And(pc, z3.Not(z3.And(z3.ULE(Q * Y, N), z3.ULT(N, Q * Y + Y)))))
+        budget_ms = int(task.get('soft_s', 60) * 1000)
+        res['obligations'] = 1 + len(ubs)
+        for cat, info, fml in ubs:
+            r, m, dt = solve.z3_check(asm, fml, 5000)
+            if r == 'unsat':
+                res['discharged'] += 1
+            elif r == 'sat':
+                res['undecided'].append({'kind': cat, 'desc': info + ' (model found, not replayed)'})
+            else:
+                res['undecided'].append({'kind': cat, 'desc': info})
+        goal = z3.Or(*bad) if bad else z3.BoolVal(False)
+        # the arguments Denominator<std::int64_t>(d) passes: y = |d| in [2, 2^63], x = 2^(l-1), l = bit_width(|d| - 1)
+        # one task per bit length l of |d| - 1, so that the normalisation shift and x are constants
+        l = int(task['l'])
+        use = [z3.UGT(y, 1 << (l - 1)), z3.ULE(y, 1 << l), x == (1 << (l - 1))]
+        r, m, dt = solve.z3_check(asm + use, goal, budget_ms)
+        res['name'] = '%s__l%d' % (meta['name'], l)
+        res['solver_time'] = {'z3': dt}
+        res['solver_calls'] = {'z3': 1 + len(ubs)}
+        res['decided_by'] = {}
+        if r == 'unsat':
+            res['discharged'] += 1
+        elif r == 'unknown':
+            res['undecided'].append({'kind': 'result', 'desc': 'magic number of Denominator<std::int64_t>(d) for symbolic d: div_64uhi_by_64u(2^(l-1), |d|) == floor(2^(63+l) / |d|): for 2^%d < |d| <= 2^%d: no verdict in %d s (bug hunting only; see DESIGN.md 12.7)' % (l - 1, l, budget_ms // 1000)})
+        else:
+            xv, yv = int(m.get('s0', 0)), int(m.get('s1', 0))
+            h = hashlib.sha1(('%d.%d.%s' % (xv, yv, cfg.name)).encode()).hexdigest()[:10]
+            outdir = os.path.join(replay.REPLAYS, task['prop'], '%s.%s.%s' % (meta['name'], cfg.name, h))
+            os.makedirs(outdir, exist_ok=True)
+            src = ('#include "verif_prelude.hpp"\n#include <cstdio>\n#include <cstdint>\n'
+                   'static int bad = 0;\n'
+                   'static void probe(std::int64_t n, std::int64_t d) { avel::Denominator<std::int64_t> D{d}; auto r = div(n, D);\n'
+                   '  if (r.quot != n / d || r.rem != n %% d) { if (!bad) std::printf("n=%%lld d=%%lld observed {%%lld, %%lld} expected {%%lld, %%lld}\\n", (long long)n, (long long)d, (long long)r.quot, (long long)r.rem, (long long)(n / d), (long long)(n %% d)); bad = 1; } }\n'
+                   'int main() { const std::uint64_t y = %dull; const std::uint64_t kmax = 0x7fffffffffffffffull / y;\n'
+                   '  for (int s = 0; s < 2; ++s) { std::int64_t d = s ? -(std::int64_t)y : (std::int64_t)y; if (y == (1ull << 63) && !s) continue;\n'
+                   '    for (std::uint64_t i = 0; i < 256; ++i) { std::uint64_t k = i < 128 ? i + 1 : (kmax > (i - 128) ? kmax - (i - 128) : 1); if (k == 0 || k > kmax) continue;\n'
+                   '      for (int dl = -1; dl <= 1; ++dl) { std::int64_t n = (std::int64_t)(k * y) + dl; probe(n, d); probe(-n, d); } } }\n'
+                   '  if (!bad) std::printf("Denominator<int64_t>(+-%%llu) divides every probed numerator correctly\\n", (unsigned long long)y);\n'
+                   '  return bad; }\n' % yv)
+            open(os.path.join(outdir, 'repro.cpp'), 'w').write(src)
+            sh = os.path.join(outdir, 'run.sh')
+            open(sh, 'w').write('#!/bin/sh\n# exit 1 if the violation reproduces\ncd "%s" && g++ %s -O2 -w -I%s -I%s repro.cpp -o repro.bin && ./repro.bin; rc=$?; rm -f repro.bin; exit $rc\n'
+                                % (outdir, ' '.join(cfg.flags()), os.path.join(build.HERE, 'cxx'), build.repo_include()))
+            os.chmod(sh, 0o755)
+            rr = subprocess.run(['sh', sh], stdout=subprocess.PIPE, stderr=subprocess.STDOUT, universal_newlines=True)
+            rec = {'kind': 'result', 'desc': 'div_64uhi_by_64u(2^(l-1), |d|) != floor(2^(63+l) / |d|): Denominator<std::int64_t>(d) gets a wrong magic number', 'inputs': ['d=+-%#x' % yv, 'n = k|d| + {-1,0,1}'], 'rm': 'RNE', 'replay': sh,
+                   'confirmed': rr.returncode == 1, 'detail': {'g++-O2': rr.stdout[-300:]}, 'solver': 'z3'}
+            (res['violations'] if rec['confirmed'] else res['unconfirmed']).append(rec)
+        if res['violations']:
+            res['status'] = 'violation'
+        elif res['undecided']:
+            res['status'] = 'undecided'
+    except symex.NotEncodable as e:
+        res['status'] = 'not-encodable'
+        res['detail'] = str(e)[:300]
+    except Exception:
+        res['status'] = 'crash'
+        res['detail'] = traceback.format_exc()[-1500:]
+    res['time'] = time.time() - t0
+    res['rss_mb'] = resource.getrusage(resource.RUSAGE_SELF).ru_maxrss // 1024
+    return res
+
+
 def groups_for(meta, tier, seed):
+    if meta['op'] == 'div64uhi':
+        return [None]
     dop = BY_NAME[meta['op']]
     T = harness.type_of(meta)
     if T.bits == 8:
